@@ -42,13 +42,19 @@ impl PathBuf {
     // PathExt::mash of an absolute clean dir with a relative/absolute path (proved in unit path_helpers at component level)
     pub uninterp spec fn spec_mash(d: Comps, p: Comps) -> Comps;
     #[verifier::external_body]
-    pub fn mash(&self, p: PathBuf) -> (r: PathBuf) ensures r.comps() == Self::spec_mash(self.comps(), p.comps()) { unimplemented!() }
+    pub fn mash<T: MashArg>(&self, p: T) -> (r: PathBuf) ensures r.comps() == Self::spec_mash(self.comps(), p.mc()) { unimplemented!() }
     #[verifier::external_body]
     pub fn is_absolute(&self) -> (b: bool) ensures self.abs_clean() ==> b { unimplemented!() }
     #[verifier::external_body]
     pub fn to_owned(&self) -> (r: PathBuf) ensures r@ == self@, r.abs_clean() == self.abs_clean(), r.comps() == self.comps() { unimplemented!() }
 }
 
+// R1: what PathExt::mash accepts as its second argument (a path or a single name)
+pub trait MashArg: Sized { spec fn mc(&self) -> Comps; }
+impl MashArg for PathBuf { open spec fn mc(&self) -> Comps { self.comps() } }
+impl<'a> MashArg for &'a PathBuf { open spec fn mc(&self) -> Comps { (**self).comps() } }
+impl MashArg for NameStr { open spec fn mc(&self) -> Comps { seq![Comp::Normal(self@)] } }
+impl<'a> MashArg for &'a NameStr { open spec fn mc(&self) -> Comps { seq![Comp::Normal((**self)@)] } }
 pub open spec fn same_path(a: PathBuf, b: PathBuf) -> bool { a@ == b@ && a.abs_clean() == b.abs_clean() && a.comps() == b.comps() }
 pub open spec fn kind_mode(link: bool, file: bool, dir: bool, mode: Option<u32>) -> u32 {
     let m = match mode { Some(m) => m, None => if link { 0o120777u32 } else if file { 0o100644u32 } else { 0o40755u32 } };
@@ -261,7 +267,7 @@ pub proof fn lemma_add_wf(s: St, e: EntryV)
 }
 //@ obligation lemma_add_wf props=C03
 
-//@ item _add file=src/sys/fs/memfs/vfs.rs block="impl Memfs" fn=_add props=C03,C01,C10,C12
+//@ item _add file=src/sys/fs/memfs/vfs.rs block="impl Memfs" fn=_add props=C03,C01,C10,C12,C09,C06
 //@ sig pub(crate) fn _add(&self, guard: &mut MemfsGuard, entry: MemfsEntry) -> RvResult<PathBuf>
 //@ rw R8 * ⟦path == PathBuf::from(Component::RootDir.to_string()?)⟧ => ⟦path.is_root()⟧
 //@ ins before ⟦let path = entry.path_buf();⟧
@@ -1656,6 +1662,9 @@ pub proof fn lemma_copy_ok_prefix(s: St, c: CopyV, items: Seq<ItemV>, k: nat, n:
             let ghost k0 = (__it1.idx() - 1) as nat;
             let ghost p = src.iv().path;
             let ghost st1 = guard.st();
+            let ghost mut s1 = st1;
+            let ghost mut s2 = st1;
+            let ghost mut e2 = st1.entries[p];
             proof {
                 ax_traversal(s0, a, cp.follow);
                 assert(__it1.items() == traversal(s0, a, cp.follow));
@@ -1685,24 +1694,24 @@ pub proof fn lemma_copy_ok_prefix(s: St, c: CopyV, items: Seq<ItemV>, k: nat, n:
                     proof { if p.len() > 0 { assert(spec_abs(st1.cwd, abs_comps(p.drop_last())) == Some(p.drop_last())); } }
 //@ endins
 //@ ins before ⟦let mut dst = src.clone();⟧
-                    let ghost s1 = guard.st();
                     proof {
+                        s1 = guard.st();
                         let m = or_mode(c.dmode, st1.entries[p.drop_last()].mode);
                         if !st1.entries.contains_key(dd) { lemma_mk_all_keeps(st1, dd, m, dd.len()); assert(s1 == mk_all(st1, dd, m, dd.len())); } else { assert(s1 == st1); }
                         assert(no_links(s1) && s1.cwd == s0.cwd);
                     }
 //@ endins
 //@ ins before ⟦_add(guard, dst)?;⟧
-                    let ghost e2 = dst.ev();
                     proof {
+                        e2 = dst.ev();
                         assert(e2 == (EntryV { path: d, path_ok: true, mode: kind_mode(e.link, e.file, e.dir, or_mode(c.fmode, e.mode)), ..e }));
                         assert(fresh_entry(e2));
                         assert(!parent_is_link(s1, d)) by { if s1.entries.contains_key(d.drop_last()) { assert(!s1.entries[d.drop_last()].link); } }
                     }
 //@ endins
 //@ ins after ⟦_add(guard, dst)?;⟧
-                    let ghost s2 = guard.st();
                     proof {
+                        s2 = guard.st();
                         assert(s2 == spec_add_st(s1, e2));
                         assert(wf(s2));
                         assert forall|q: PathV| s2.entries.contains_key(q) implies !(#[trigger] s2.entries[q]).link by {
@@ -1795,7 +1804,7 @@ pub proof fn theorem_chown_frame(s: St, items: Seq<ItemV>, k: nat, uid: Option<u
 }
 //@ obligation theorem_chown_frame props=C11
 
-//@ item _chown file=src/sys/fs/memfs/vfs.rs block="impl Memfs" fn=_chown props=C11,C03,C01,C12
+//@ item _chown file=src/sys/fs/memfs/vfs.rs block="impl Memfs" fn=_chown props=C11,C03,C01,C12,C10
 //@ sig fn _chown(&self, opts: ChownOpts) -> RvResult<()>
 //@ rw R11 1 ⟦self.entries(&opts.path)?⟧ => ⟦_entries(guard, &opts.path)?⟧
 //@ rw R3 1 for
@@ -2455,7 +2464,7 @@ pub open spec fn chown_done(s0: St, s1: St, o: ChownOpts) -> bool {
         let items = traversal_cfg(s0, a->Some_0, TravCfg { follow: o.follow, max_depth: if o.recursive { usize::MAX } else { 0 }, ..default_cfg(false) });
         s1 == chown_fold(s0, items, items.len(), o.uid, o.gid) })
 }
-//@ item chown_cb file=src/sys/fs/memfs/vfs.rs block="impl VirtualFileSystem for Memfs" fn=chown_b closure=1 props=C11,C01,C03,C12
+//@ item chown_cb file=src/sys/fs/memfs/vfs.rs block="impl VirtualFileSystem for Memfs" fn=chown_b closure=1 props=C11,C01,C03,C12,C10
 //@ rw R11 1 ⟦vfs._chown(opts)⟧ => ⟦_chown(guard, opts)⟧
 pub fn chown_cb(guard: &mut MemfsGuard, opts: ChownOpts) -> (r: RvResult<()>)
     requires wf(old(guard).st()),
@@ -2469,7 +2478,7 @@ impl Chown {
         ensures wf(final(guard).st()), r is Ok ==> chown_done(old(guard).st(), final(guard).st(), self.opts),
 //@ body
 }
-//@ item chown file=src/sys/fs/memfs/vfs.rs block="impl VirtualFileSystem for Memfs" fn=chown props=C11,C01,C03,C05,C12
+//@ item chown file=src/sys/fs/memfs/vfs.rs block="impl VirtualFileSystem for Memfs" fn=chown props=C11,C01,C03,C05,C12,C10
 //@ rw R11 1 ⟦self.chown_b(path)?⟧ => ⟦chown_b(guard, path)?⟧
 //@ rw R13 1 re⟦\.exec\(\)⟧ => ⟦.exec(guard)⟧
 //@ ins start
